@@ -524,8 +524,9 @@ class Gen:
     """Non-recursive deterministic programs with findall, negation, disjunction, unification, indexed predicates
     whose clauses have non-ground arguments, predicates mixing facts and rules."""
 
-    def __init__(self, rng, prob_hook=None):
+    def __init__(self, rng, prob_hook=None, plain=False):
         self.rng = rng
+        self.plain = plain  # plain: rule heads have distinct variables only, no facts among rules, no `ix` predicate
         self.consts = CONSTS[:rng.choice([2, 3, 3, 4, 5])]
         self.prog = []
         self.preds = {}  # name -> dict(arity, level, kind)
@@ -603,13 +604,13 @@ class Gen:
                 if not [v for v in term_vars(g[1]) if v not in bound]:
                     items.append(('not', g))
                     continue
-            if r < 0.22 and depth < 1:
+            if r < (0.17 if self.plain else 0.22) and depth < 1:
                 g1, b1 = self.body(level, nv, depth + 1)
                 g2, b2 = self.body(level, nv, depth + 1)
                 items.append(('or', g1, g2))
                 bound |= (b1 & b2)
                 continue
-            if r < 0.32 and depth < 2 and level >= 1:
+            if (0.22 <= r < 0.32 if not self.plain else 0.17 <= r < 0.20) and depth < 2 and level >= 1:
                 # findall(T, G, L)
                 sub_nv = nv
                 g, b = self.body(level, sub_nv, depth + 1)
@@ -657,15 +658,15 @@ class Gen:
         nrules = rng.randint(1, 3)
         clauses = []
         for _ in range(nrules):
-            if rng.random() < 0.25:
+            if rng.random() < 0.25 and not self.plain:
                 # a fact among the rules
                 clauses.append((0, F(name, *[rng.choice(self.consts) for _ in range(arity)]), TRUE))
                 continue
             nv = [0]
             hargs = []
             for i in range(arity):
-                if rng.random() < 0.85:
-                    if nv[0] > 0 and rng.random() < 0.15:
+                if rng.random() < 0.85 or self.plain:
+                    if nv[0] > 0 and rng.random() < 0.15 and not self.plain:
                         hargs.append(V(rng.randrange(nv[0])))
                     else:
                         hargs.append(V(nv[0]))
@@ -683,7 +684,7 @@ class Gen:
             self.edb('e%d' % i, rng.choice([1, 1, 2, 2]))
         if 'e0' in self.preds and self.preds['e0']['arity'] == 0:
             pass
-        if rng.random() < 0.5:
+        if rng.random() < 0.5 and not self.plain:
             self.indexed('ix')
         for i in range(rng.randint(1, 4)):
             self.idb('p%d' % i, rng.choice([1, 1, 2]), rng.randint(1, 3))
@@ -963,3 +964,99 @@ def shrink_program(prog, pred, keep_last=True, max_steps=400, deadline=None):
                         again = True
                         break
     return fix_nvars(cur)
+
+
+# --------------------------------------------------------------------------------------------- probabilistic programs (C19)
+def gen_prob_findall_program(rng, max_choices=6):
+    """A program with probabilistic facts / annotated disjunctions and a clause q(L) :- findall|all(T, G, L).
+
+    Returns (statements, query term, builtin) where a statement is
+      ('det', clause) | ('pf', prob, clause) | ('ad', [(prob, fact clause), ...])
+    in program order (probabilities are strings of decimals, sum of an AD <= 1)."""
+    for _ in range(100):
+        g = Gen(rng, plain=True)
+        prog = fix_nvars(g.program())
+        qc = g.findall_query()
+        if qc is None:
+            continue
+        builtin = 'findall' if rng.random() < 0.6 else 'all'
+        stmts = []
+        nchoice = 0
+        i = 0
+        facts_idx = [k for k, c in enumerate(prog) if c[2] == TRUE and not term_vars(c[1])]
+        while i < len(prog):
+            c = prog[i]
+            isfact = c[2] == TRUE and not term_vars(c[1])
+            r = rng.random()
+            if isfact and nchoice < max_choices and r < 0.55:
+                # an AD over this and the next fact(s)?
+                j = i + 1
+                if r < 0.15:
+                    while j < len(prog) and j < i + 3 and prog[j][2] == TRUE and not term_vars(prog[j][1]):
+                        j += 1
+                if j - i >= 2:
+                    ps = rng.choice([['0.3', '0.4'], ['0.5', '0.5'], ['0.2', '0.3', '0.4'], ['0.1', '0.2', '0.3']])[:j - i]
+                    if len(ps) < j - i:
+                        j = i + len(ps)
+                    stmts.append(('ad', [(ps[k], prog[i + k]) for k in range(j - i)]))
+                    nchoice += 1
+                    i = j
+                    continue
+                stmts.append(('pf', rng.choice(['0.1', '0.3', '0.5', '0.7', '0.9']), c))
+                nchoice += 1
+            elif (not isfact) and c[2] != TRUE and nchoice < max_choices and r < 0.08 and not term_vars(c[1]):
+                stmts.append(('pf', rng.choice(['0.2', '0.6']), c))
+                nchoice += 1
+            else:
+                stmts.append(('det', c))
+            i += 1
+        if nchoice == 0:
+            continue
+        n, h, b = fix_nvars([qc])[0]
+        if builtin == 'all':
+            b = ('all', b[1], b[2], b[3])
+        stmts.append(('det', (n, h, b)))
+        return stmts, F('q', V(0)), builtin
+    raise RuntimeError("generator failed")
+
+
+def pl_stmt(st):
+    if st[0] == 'det':
+        return pl_clause_x(st[1])
+    if st[0] == 'pf':
+        return "%s::%s" % (st[1], pl_clause_x(st[2]))
+    return "; ".join("%s::%s" % (p, pl_term(c[1])) for p, c in st[1]) + "."
+
+
+def pl_clause_x(c):
+    """Like pl_clause, also for bodies with all/3."""
+    n, h, b = c
+    if b[0] == 'all':
+        return "%s :- all(%s, %s, %s)." % (pl_term(h), pl_term(b[1]), pl_goal_p(b[2], arg=True), pl_term(b[3]))
+    return pl_clause(c)
+
+
+def worlds(stmts):
+    """Enumerate (probability as Fraction, deterministic program in statement order); `all` bodies kept as is."""
+    from fractions import Fraction
+    opts = []
+    for st in stmts:
+        if st[0] == 'det':
+            opts.append([(Fraction(1), [st[1]])])
+        elif st[0] == 'pf':
+            p = Fraction(st[1])
+            opts.append([(p, [st[2]]), (1 - p, [])])
+        else:
+            o = [(Fraction(p), [c]) for p, c in st[1]]
+            rest = 1 - sum(Fraction(p) for p, _ in st[1])
+            if rest > 0:
+                o.append((rest, []))
+            opts.append(o)
+    for combo in itertools.product(*opts):
+        w = Fraction(1)
+        prog = []
+        for p, cs in combo:
+            w *= p
+            prog.extend(cs)
+        if w > 0:
+            yield w, prog
